@@ -7,7 +7,7 @@ TRUSTED = C15.TRUSTED + ['translator/tables.py: the box projector is appended la
 
 
 def run(ctx):
-    return G.run(ctx, 'C09', 'proof', ('Gen_util', 'Gen_model', 'Gen_tables'), ['Char_model.v', 'C15.v', 'C09.v'], TRUSTED, correspondence=C15.correspondence)
+    return G.run(ctx, 'C09', 'proof', ('Gen_util', 'Gen_model', 'Gen_tables'), ['Char_model.v', 'C15.v', 'C17.v', 'C03.v', 'C09.v'], TRUSTED, correspondence=C15.correspondence)
 
 
 def replay(payload):
